@@ -9,6 +9,7 @@ import (
 	"os"
 	"path/filepath"
 	"sync"
+	"sync/atomic"
 	"time"
 
 	"github.com/named-data/ndnd/fw/face"
@@ -17,6 +18,7 @@ import (
 
 	"verif/internal/gen"
 	"verif/internal/h"
+	"verif/internal/tlvwalk"
 )
 
 // ---- C11: stream framing delivers each TLV exactly once for any chunking
@@ -96,6 +98,13 @@ func c11Run(c *h.Ctx) {
 			continue
 		}
 		c11Socket(c, id, c.Rng(id), c.Pick(300_000, 3_000_000))
+	}
+	for s := 0; s < c.Pick(3, 20); s++ {
+		id := fmt.Sprintf("send%d", s)
+		if !c.Case(id) {
+			continue
+		}
+		c11SendSide(c, id, c.Rng(id), c.Pick(400, 2000))
 	}
 }
 
@@ -300,6 +309,132 @@ func c11Socket(c *h.Ctx, id string, r *rand.Rand, total int) {
 	c11Compare(c, id, "StreamFace", blocks, got, det)
 	c.Count("socket_blocks", int64(len(blocks)))
 	c.Distinct("socket|unix")
+}
+
+// c11SendSide: several goroutines send blocks as multi-buffer wires on ONE StreamFace; the peer
+// frames the byte stream with the independent walker. Every block must arrive whole (not split by
+// or merged with another sender's bytes), exactly once, in per-sender order.
+func c11SendSide(c *h.Ctx, id string, r *rand.Rand, perSender int) {
+	dir := filepath.Join(c.WorkDir, fmt.Sprintf("sock-%d", c.Batch))
+	h.MustMkdir(dir)
+	path := filepath.Join(dir, id+".sock")
+	os.Remove(path)
+	ln, err := net.Listen("unix", path)
+	if err != nil {
+		c.Inconclusive("cannot listen on unix socket: " + err.Error())
+		return
+	}
+	defer ln.Close()
+	defer os.Remove(path)
+	senders := 2 + r.Intn(3)
+	type plan struct {
+		blocks [][]byte
+		wires  []enc.Wire
+	}
+	plans := make([]plan, senders)
+	for si := range plans {
+		for k := 0; k < perSender; k++ {
+			val := make([]byte, 8+r.Intn(300))
+			r.Read(val)
+			val[0], val[1], val[2], val[3] = byte(si), byte(k>>16), byte(k>>8), byte(k)
+			b := tlvwalk.TLV(uint64(0x80+si), val)
+			// 1..4 buffers, cuts anywhere (also inside the T/L header)
+			w := enc.Wire{}
+			prev := 0
+			for n := r.Intn(4); n > 0 && prev < len(b)-1; n-- {
+				cut := prev + 1 + r.Intn(len(b)-prev-1)
+				w = append(w, b[prev:cut])
+				prev = cut
+			}
+			w = append(w, b[prev:])
+			plans[si].blocks = append(plans[si].blocks, b)
+			plans[si].wires = append(plans[si].wires, w)
+		}
+	}
+	recvDone := make(chan []byte, 1)
+	go func() {
+		conn, err := ln.Accept()
+		if err != nil {
+			recvDone <- nil
+			return
+		}
+		defer conn.Close()
+		var all []byte
+		buf := make([]byte, 4096)
+		for {
+			conn.SetReadDeadline(time.Now().Add(60 * time.Second))
+			n, err := conn.Read(buf)
+			all = append(all, buf[:n]...)
+			if err != nil {
+				break
+			}
+		}
+		recvDone <- all
+	}()
+	f := stdface.NewStreamFace("unix", path, true)
+	f.SetCallback(func(rd enc.ParseReader) error { return nil }, func(err error) error { return err })
+	if err := f.Open(); err != nil {
+		c.Inconclusive("cannot open stream face: " + err.Error())
+		return
+	}
+	var wg sync.WaitGroup
+	start := make(chan struct{})
+	var sendErr atomic.Value
+	for si := range plans {
+		wg.Add(1)
+		go func(si int) {
+			defer wg.Done()
+			<-start
+			for _, w := range plans[si].wires {
+				if err := f.Send(w); err != nil {
+					sendErr.Store(err.Error())
+					return
+				}
+			}
+		}(si)
+	}
+	close(start)
+	wg.Wait()
+	f.Close()
+	var stream []byte
+	select {
+	case stream = <-recvDone:
+	case <-time.After(90 * time.Second):
+		c.Inconclusive("send-side peer did not reach EOF in 90 s")
+		return
+	}
+	c.Eval(1)
+	det := map[string]any{"plan": "send-side", "senders": senders, "blocks_per_sender": perSender, "stream_bytes": len(stream)}
+	if e := sendErr.Load(); e != nil {
+		c.Inconclusive("Send returned an error: " + e.(string))
+		return
+	}
+	nodes, werr := tlvwalk.Walk(stream, 0, len(stream), nil, false)
+	if werr != nil {
+		c.Violation("C11:send-side:stream-not-a-block-sequence", id, "bytes written by concurrent Send calls do not form a sequence of whole blocks: "+werr.Error(), det)
+		return
+	}
+	next := make([]int, senders)
+	for _, n := range nodes {
+		blk := stream[n.Off:n.End]
+		si := int(n.Type) - 0x80
+		if si < 0 || si >= senders || next[si] >= perSender || !bytes.Equal(blk, plans[si].blocks[next[si]]) {
+			det["frame_type"] = n.Type
+			det["frame_len"] = len(blk)
+			c.Violation("C11:send-side:block-split-or-merged", id, "a block on the wire is not the next block its sender sent (split, merged, lost, duplicated or reordered)", det)
+			return
+		}
+		next[si]++
+	}
+	for si, k := range next {
+		if k != perSender {
+			det["sender"] = si
+			c.Violation("C11:send-side:block-lost", id, fmt.Sprintf("sender %d sent %d blocks, %d arrived", si, perSender, k), det)
+			return
+		}
+	}
+	c.Count("send_side_blocks", int64(senders*perSender))
+	c.Distinct(fmt.Sprintf("send-side|senders=%d", senders))
 }
 
 func init() {
